@@ -273,3 +273,39 @@ func VH_C04_UnmarshalShort() {
 	kt.Unmarshal(b)
 	zzverif.Reach("returned")
 }
+
+// ---- C20: a keytab's keys never show in its diagnostics or in the errors of its parser ---------------------
+
+// VH_C20_KeytabSurfaces: a keytab holding a secret key: its JSON dump, the error of a failed lookup, and
+// the error of parsing the keytab file truncated at every offset.
+func VH_C20_KeytabSurfaces() {
+	key := zzverif.Secret(zzverif.Param("keylen"))
+	kt := New()
+	kt.VHAddEntry("R", []string{"svc", "h"}, 18, 2, key, time.Unix(1500000000, 0))
+	j, err := kt.JSON()
+	zzverif.Public("keytab-json", j, err)
+	for _, q := range []struct {
+		name  string
+		realm string
+		kvno  int
+		etype int32
+	}{{"other", "R", 0, 18}, {"svc/h", "R", 9, 18}, {"svc/h", "R", 0, 17}, {"svc/h", "Q", 2, 18}, {"svc", "R", 2, 18}} {
+		_, _, err = kt.GetEncryptionKey(types.NewPrincipalName(1, q.name), q.realm, q.kvno, q.etype)
+		zzverif.Assume(err != nil)
+		zzverif.Public("keytab-lookup-error", err)
+	}
+	b, err := kt.Marshal()
+	zzverif.Public("keytab-marshal-error", err)
+	zzverif.Assume(err == nil && len(b) > 0)
+	cut := zzverif.Choose(0, len(b))
+	var k2 Keytab
+	err = k2.Unmarshal(b[:cut])
+	if err != nil {
+		zzverif.Reach("parse-error")
+	} else {
+		zzverif.Reach("parsed")
+	}
+	zzverif.Public("keytab-parse-error", err)
+	j, _ = k2.JSON()
+	zzverif.Public("keytab-json", j)
+}
